@@ -25,6 +25,7 @@ ASSUMPTIONS = [
 BOUND = {"quick": "45 layouts x 2 documents + 11 documents; ~40 field packs; ~55 operation packs; G(2,1) without required flag, prefix names",
          "thorough": "45 layouts x 11 documents; all field/operation packs of C01 thorough; G(2,1) full"}
 CHUNK = 4
+ISOLATE = True  # every case in its own forked process: generator globals carry history only inside a case
 
 
 def cases(tier, seed):
@@ -33,6 +34,13 @@ def cases(tier, seed):
         for second in (False, True):
             for tamper in ("append", "truncate"):
                 out.append({"kind": "stale-core", "core": core, "second_client": second, "tamper": tamper})
+    cores = [None, "core", "pk.core", "shared_core", "pk.a.b.core"]
+    for a in cores:
+        for b in cores:
+            if a != b:
+                out.append({"kind": "core-switch", "first": a, "second": b, "doc": "wrappers"})
+                if tier != "quick":
+                    out.append({"kind": "core-switch", "first": a, "second": b, "doc": "codes"})
     for c in c01.cases(tier, seed):
         if c["kind"] == "graph":
             if tier == "quick" and c["menu"] != "prefix":
@@ -115,6 +123,15 @@ def run_case(case):
         doc = docs.get(case["doc"], os.environ.get("VERIF_REPO", "/repo"))
         label = f"layout|{case['doc']}|out={case['out']}|core={case['core']}|naming={case['naming']}"
         r = check_project(doc, case["out"], case["core"], case["naming"])
+    elif k == "core-switch":
+        # history: the same output package is generated in ONE process first with core layout `first`, then (into a fresh project)
+        # with core layout `second`; the second tree must refer to its own designated core only
+        doc = docs.get(case["doc"])
+        out_pkg = "pk.cli" if (case["first"] or "").startswith("pk.") or (case["second"] or "").startswith("pk.") else "cli"
+        with sandbox.scratch() as d0:
+            sandbox.generate(doc, os.path.join(d0, "proj"), output_package=out_pkg, core_package=case["first"], reset=False)
+        label = f"core-switch|{case['doc']}|out={out_pkg}|first={case['first']}|second={case['second']}"
+        r = check_project(doc, out_pkg, case["second"])
     elif k == "stale-core":
         doc = docs.get("petstore")
         label = f"stale-core|core={case['core']}|second_client={case['second_client']}|tamper={case['tamper']}"
